@@ -72,9 +72,10 @@ func ruleErrDominatesUse(c *Ctx) {
 				return nested
 			}
 			type site struct {
-				as   *ast.AssignStmt
-				x, e types.Object
-				name string
+				as     *ast.AssignStmt
+				x, e   types.Object
+				name   string
+				scalar bool
 			}
 			var sites []*site
 			siteOf := map[ast.Node]*site{}
@@ -104,12 +105,18 @@ func ruleErrDominatesUse(c *Ctx) {
 				if x == nil || e == nil || !isErrLike(e.Type()) {
 					return true
 				}
+				scalar := false
 				switch x.Type().Underlying().(type) {
 				case *types.Pointer, *types.Slice:
 				default:
-					return true
+					// the outcome of an awaited coroutine / submission (a flag, a count): meaningless when
+					// the await failed — any read of it counts as a use
+					if _, isBasic := x.Type().Underlying().(*types.Basic); !isBasic {
+						return true
+					}
+					scalar = true
 				}
-				s := &site{as: as, x: x, e: e, name: calleeName(info, call)}
+				s := &site{as: as, x: x, e: e, name: calleeName(info, call), scalar: scalar}
 				sites = append(sites, s)
 				siteOf[as] = s
 				return true
@@ -281,6 +288,17 @@ func ruleErrDominatesUse(c *Ctx) {
 				}
 				return false
 			}
+			lhsIdent := map[*ast.Ident]bool{}
+			ast.Inspect(body, func(z ast.Node) bool {
+				if as, isAs := z.(*ast.AssignStmt); isAs {
+					for _, l := range as.Lhs {
+						if lid, isId := ast.Unparen(l).(*ast.Ident); isId {
+							lhsIdent[lid] = true
+						}
+					}
+				}
+				return true
+			})
 			for _, b := range g.Blocks {
 				if in[b.Index] == nil {
 					continue
@@ -294,6 +312,12 @@ func ruleErrDominatesUse(c *Ctx) {
 						var base ast.Expr
 						plain := false
 						switch y := x.(type) {
+						case *ast.Ident:
+							ss := xOf[info.Uses[y]]
+							if len(ss) == 0 || !ss[0].scalar || lhsIdent[y] {
+								return true
+							}
+							base, plain = y, true // wrong only if it may be the outcome of a failed call
 						case *ast.SelectorExpr:
 							base = y.X
 						case *ast.StarExpr:
@@ -374,7 +398,7 @@ func ruleErrDominatesUse(c *Ctx) {
 				occFn[funcName(fd)+"/"+s.name]++
 				key := fmt.Sprintf("err-dominates-use/%s.%s/%s#%d", pk.Name, funcName(fd), s.name, occFn[funcName(fd)+"/"+s.name])
 				if p, isBad := bad[s]; isBad {
-					o := c.bad(key, p, fmt.Sprintf("%s (returned by %s together with an error) is dereferenced here on a path where that error was not found to be nil: on the error path it is nil and the goroutine panics (kernel / store / request goroutine)", s.x.Name(), s.name))
+					o := c.bad(key, p, fmt.Sprintf("%s (returned by %s together with an error) is %s here on a path where that error was not found to be nil: on the error path it is %s", s.x.Name(), s.name, map[bool]string{false: "dereferenced", true: "read"}[s.scalar], map[bool]string{false: "nil and the goroutine panics (kernel / store / request goroutine)", true: "the zero value, not an outcome: the failed await is taken for an answer"}[s.scalar]))
 					o.Path = []string{"function: " + pk.Name + "." + funcName(fd), "result and error assigned: " + c.P.pos(s.as.Pos()), "dereference: " + c.P.pos(p)}
 				} else {
 					c.ok(key, s.as.Pos(), fmt.Sprintf("%d dereferences, all after the error was found nil", used[s]))
@@ -386,4 +410,122 @@ func ruleErrDominatesUse(c *Ctx) {
 	c.count("guarded_dereferences", nUses)
 	c.floor("(result, error) pairs whose result is dereferenced", nSites, 80)
 	_ = strings.TrimSpace
+}
+
+// ruleErrorsExamined (C13/C15/C20): in the front ends, the shared API helper, the cursor codec and
+// the record decoders every error a call produces is examined before the function goes on: on every
+// path from the call to an exit the error variable is tested in a branch condition, returned, or
+// handed to a call (wrapped, rendered, logged). An error that is bound and then ignored — a
+// validation failure of the request binding, a failed decode of a stored column — lets the handler
+// continue with a half-filled request or object.
+func ruleErrorsExamined(pkgs ...string) ruleFn {
+	return func(c *Ctx) {
+		n := 0
+		for _, pp := range pkgs {
+			pk := c.P.Pkg(pp)
+			if pk == nil {
+				c.und("errors-examined/"+pp, 0, "package not loaded")
+				continue
+			}
+			info := pk.TypesInfo
+			isErrLike := func(t types.Type) bool {
+				return isErrorType(t) || isNamed(derefType(t), pkgSubApi, "Error") || isNamed(derefType(t), pkgTApi, "Error")
+			}
+			for _, fd := range allFuncDecls(pk) {
+				if fd.Body == nil || isTestFile(c.P, fd.Pos()) {
+					continue
+				}
+				type site struct {
+					node ast.Node
+					v    types.Object
+					name string
+				}
+				var sites []site
+				ast.Inspect(fd.Body, func(nd ast.Node) bool {
+					if _, isLit := nd.(*ast.FuncLit); isLit {
+						return false
+					}
+					as, ok := nd.(*ast.AssignStmt)
+					if !ok || len(as.Rhs) != 1 {
+						return true
+					}
+					call, ok := ast.Unparen(as.Rhs[0]).(*ast.CallExpr)
+					if !ok {
+						return true
+					}
+					for _, l := range as.Lhs {
+						id, ok := l.(*ast.Ident)
+						if !ok || id.Name == "_" {
+							continue
+						}
+						o := info.Defs[id]
+						if o == nil {
+							o = info.Uses[id]
+						}
+						if o != nil && isErrLike(o.Type()) {
+							sites = append(sites, site{as, o, calleeName(info, call)})
+						}
+					}
+					return true
+				})
+				if len(sites) == 0 {
+					continue
+				}
+				g := buildCFG(pk, fd.Body)
+				occ := map[string]int{}
+				for _, s := range sites {
+					s := s
+					n++
+					mentionsV := func(x ast.Node) bool { return x != nil && mentions(info, x, s.v) }
+					set := func(nd ast.Node) bool { return nd == s.node }
+					clear := func(nd ast.Node) bool {
+						if nd == s.node {
+							return false
+						}
+						switch x := nd.(type) {
+						case *ast.ReturnStmt:
+							return mentionsV(x)
+						case *ast.AssignStmt:
+							// re-defined by another call: that definition is its own site
+							for _, l := range x.Lhs {
+								if isObj(info, l, s.v) {
+									return true
+								}
+							}
+						}
+						// handed to a call / used in an expression statement
+						handed := false
+						ast.Inspect(nd, func(y ast.Node) bool {
+							if call, ok := y.(*ast.CallExpr); ok {
+								for _, a := range call.Args {
+									if mentionsV(a) {
+										handed = true
+									}
+								}
+							}
+							return true
+						})
+						return handed
+					}
+					clearEdge := func(b *cfg.Block, i int) bool {
+						if len(b.Succs) != 2 || len(b.Nodes) == 0 {
+							return false
+						}
+						cond, ok := b.Nodes[len(b.Nodes)-1].(ast.Expr)
+						return ok && mentionsV(cond)
+					}
+					leak, _ := pendingFlow(g, set, clear, clearEdge, func(b *cfg.Block) bool { return len(b.Succs) == 0 })
+					occ[s.name]++
+					key := fmt.Sprintf("errors-examined/%s.%s/%s#%d", pk.Name, funcName(fd), s.name, occ[s.name])
+					pos := s.node.Pos()
+					if leak != nil {
+						pos = leak.Pos()
+					}
+					c.check(leak == nil, key, pos, "the error is examined on every path", fmt.Sprintf("the error of %s (%s) is not examined on a path that goes on to %s: a failed binding / decode / validation is ignored and the function continues with what it has", s.name, s.v.Name(), c.P.pos(pos)))
+				}
+			}
+		}
+		c.count("errors_to_examine", n)
+		c.floor("error results in the front ends and decoders", n, 60)
+	}
 }
